@@ -86,7 +86,9 @@ struct Server { std::unique_ptr<cppcms::service> srv; std::thread th; int http_p
 			bool ours=false; for(int i=0;i<400&&!run_returned;i++){ int s=socket(AF_INET,SOCK_STREAM,0); sockaddr_in a; memset(&a,0,sizeof a); a.sin_family=AF_INET; a.sin_port=htons(http_port); a.sin_addr.s_addr=htonl(INADDR_LOOPBACK); int r=connect(s,(sockaddr*)&a,sizeof a); if(r==0&&access(fcgi_path.c_str(),F_OK)==0&&access(scgi_path.c_str(),F_OK)==0){ std::string rq="GET /whoami HTTP/1.0\r\n\r\n",rp; send(s,rq.data(),rq.size(),MSG_NOSIGNAL); char b[512]; ssize_t n; pollfd pf; pf.fd=s; pf.events=POLLIN; while(poll(&pf,1,2000)>0&&(n=recv(s,b,sizeof b,0))>0) rp.append(b,n); ::close(s); ours= rp.find("pid="+std::to_string((long)getpid()))!=std::string::npos; break; } ::close(s); usleep(5000); }
 			if(ours) return; stop(); }
 		fprintf(stderr,"harness error: could not start a service on a private port\n"); vf::C().harness_error=true; }
-	void stop(){ if(srv){ srv->shutdown(); if(th.joinable()) th.join(); srv.reset(); } }
+	bool hung_at_stop=false;
+	// stop the service; if its event loop does not leave run() within 8 s it is stuck: the thread is abandoned (the shard process exits soon after) and the fact recorded
+	void stop(){ if(srv){ srv->shutdown(); for(int i=0;i<800&&!run_returned;i++) usleep(10000); if(run_returned){ if(th.joinable()) th.join(); srv.reset(); } else { hung_at_stop=true; th.detach(); srv.release(); } } }
 	bool alive() const { return !run_returned; } };
 
 enum Proto { HTTP=0, SCGI=1, FCGI=2 }; static const char *PROTO_NAME[]={"http","scgi","fastcgi"};
